@@ -501,6 +501,9 @@ func TestVerifC10(t *testing.T) {
 	c10Common(c)
 	c10NoOp(c)
 	c10Class(c, mc.Pick(c, 5, 6))
+	if !c.Sweep() {
+		c10Fresh(c)
+	}
 	if code := c.Finish(); code != 0 {
 		os.Exit(code)
 	}
